@@ -532,6 +532,17 @@ class Exec(object):
                 path.append(('index', self.concrete_int(iv)))
             elif k == 'constindex':
                 path.append(('index', pj[1]))
+            elif k == 'subslice':
+                # slice patterns: `[a:]`, `[:-b]`, `[a:-b]` (counted from the end) and `[a..b]`
+                txt = pj[1].strip()
+                m1 = re.fullmatch(r'(\d*):(?:-(\d+))?', txt)
+                m2 = re.fullmatch(r'(\d+)\.\.(\d+)', txt)
+                if m1:
+                    path.append(('subslice', int(m1.group(1) or 0), int(m1.group(2) or 0), True))
+                elif m2:
+                    path.append(('subslice', int(m2.group(1)), int(m2.group(2)), False))
+                else:
+                    raise Unsupported('subslice projection %r' % (txt,))
             else:
                 raise Unsupported('projection %r' % (pj,))
         return cell, path
@@ -574,6 +585,14 @@ class Exec(object):
                     raise Unsupported('index of %r' % (v,))
             elif k == 'attr':
                 v = getattr(v, stp[1])
+            elif k == 'subslice':
+                if not isinstance(v, VecV):
+                    raise Unsupported('subslice of %r' % (v,))
+                n_ = len(v.items)
+                a_, b_ = (stp[1], n_ - stp[2]) if stp[3] else (stp[1], stp[2])
+                if a_ > b_ or b_ > n_:
+                    raise Panic('subslice out of range')
+                v = VecV(v.items[a_:b_])        # a view: reads see the elements; writes through it are redirected in store()
             elif k == 'mapval':
                 v = v.vals[stp[1]]
             elif k == 'mapkey':
@@ -586,6 +605,15 @@ class Exec(object):
         path = [p for p in path]
         while path and path[-1][0] == 'downcast':
             path.pop()
+        # a write through a sub-slice view lands in the underlying vector: fold `subslice(a, ..) , index i` into `index a+i`
+        j = 0
+        while j < len(path) - 1:
+            if path[j][0] == 'subslice' and path[j + 1][0] == 'index':
+                path[j:j + 2] = [('index', path[j][1] + path[j + 1][1])]
+            else:
+                j += 1
+        if any(p[0] == 'subslice' for p in path):
+            raise Unsupported('store of a whole sub-slice')
         if not path:
             cell.val = val
             return
